@@ -32,10 +32,13 @@ structure Obj where
   data : Str
 deriving DecidableEq, Repr, Inhabited
 
-/-- A stored value: the encoding of an object (data area) or raw bytes (index area: the id). -/
+/-- A stored value: the encoding of an object (data area), raw bytes (index area: the id), or a nested bucket:
+`bucket.Get` answers nil for it (so `Exists` = false, `Get` = ErrNoKeyExists), a prefix scan lists it with an empty
+value, `bucket.Put` on it fails (ErrIncompatibleValue) and `Bolt.delete` removes it with `DeleteBucket`. -/
 inductive Val where
   | obj (o : Obj)
   | ref (id : Str)
+  | bucket             -- the key names a NESTED BUCKET (created by someone else in the same bucket)
 deriving DecidableEq, Repr, Inhabited
 
 /-- One Bolt bucket: key/value pairs in ascending key order. -/
@@ -163,6 +166,7 @@ deriving Repr
 
 def Tx.put (t : Tx) (k : Str) (v : Val) : Except Err Tx :=
   if t.failAt = some t.writes then .error .io
+  else if kvGet t.kv k = some .bucket then .error .other       -- bbolt: ErrIncompatibleValue
   else .ok { t with kv := kvPut t.kv k v, writes := t.writes + 1 }
 
 def Tx.delete (t : Tx) (k : Str) : Except Err Tx :=
@@ -175,6 +179,7 @@ def getTx (c : Cfg) (kv : KV) (id : Str) : Except Err Obj :=
   | none => .error .missing
   | some (.obj o) => .ok o
   | some (.ref _) => .error .other
+  | some .bucket => .error .missing         -- `Exists` is false for a nested bucket
 
 /-- The index loop of `putTx`. `old = some x` ⇔ `replacing`. -/
 def putIndexes (c : Cfg) (o : Obj) (old : Option Obj) : List Index → Tx → Except Err Tx
@@ -252,6 +257,7 @@ def putAllIndexes (c : Cfg) (o : Obj) : List Index → Tx → Except Err Tx
 def rebuildData (c : Cfg) : KV → Tx → Except Err Tx
   | [], t => .ok t
   | (_, .ref _) :: _, _ => .error .other
+  | (_, .bucket) :: _, _ => .error .other   -- empty value: unmarshal error
   | (_, .obj o) :: rest, t =>
     match putAllIndexes c o c.indexes t with
     | .error e => .error e
@@ -314,7 +320,8 @@ def matchFn (pattern : Str) : Str → Bool := fun id => if pattern = [] then tru
 /-- The ids in the directory of an index (`tx.List(indexKey(index,"")+"/")`, optionally reversed); an entry that
 holds an encoded object instead of an id cannot be resolved (`none`). -/
 def indexIds (c : Cfg) (kv : KV) (index : Str) (rev : Bool) : List (Option Str) :=
-  let es := (kvList kv (indexDir c index)).map (fun e => match e.2 with | .ref id => some id | .obj _ => none)
+  let es := (kvList kv (indexDir c index)).map
+    (fun e => match e.2 with | .ref id => some id | .bucket => some [] | .obj _ => none)
   if rev then es.reverse else es
 
 def fetch (c : Cfg) (kv : KV) : List Str → Except Err (List Obj)
@@ -367,6 +374,13 @@ def step (c : Cfg) (kv : KV) : Op → KV × Option Err
   | .delete id f => update kv f (fun t => deleteTx c t id)
   | .rebuild f => update kv f (fun t => rebuildTx c t)
   | .reopen => (kv, none)
+
+/-- A foreign write (NOT an `IndexedStore` call): somebody creates a nested bucket under `k` in the same bucket
+(`CreateBucket` fails when the key exists). Used by the correspondence only. -/
+def mkBucket (kv : KV) (k : Str) : KV × Option Err :=
+  match kvGet kv k with
+  | none => (kvPut kv k .bucket, none)
+  | some _ => (kv, some .other)
 
 def run (c : Cfg) (ops : List Op) : KV := ops.foldl (fun kv op => (step c kv op).1) []
 
